@@ -10,6 +10,8 @@ from .framework import VERIF, LEAN_DIR, WORK, DRIVER, ALLOWED_AXIOMS, ensure_rep
 
 FORBIDDEN = re.compile(r'\bsorry\b|\badmit\b|^\s*axiom\s|\bnative_decide\b|\bbv_decide\b|implemented_by|'
                        r'\bunsafe\s|maxHeartbeats\s+0\b', re.M)
+# table groups that are projections of one generated file
+DUMPER_OF = {'ChainPow': 'Chain', 'ChainNet': 'Chain', 'ChainAddr': 'Chain'}
 NATIVE_OK_FILES = {'BtcVerif/Props/C11Native.lean'}
 
 
@@ -47,6 +49,7 @@ def lake(*targets, timeout=3600):
 def regen_table(group):
     """Regenerate lean/BtcVerif/Generated/<group>.lean from the working tree; rewrite only if changed."""
     ensure_repo_on_path()
+    group = DUMPER_OF.get(group, group)
     mod = importlib.import_module('harness.tables.' + group.lower())
     src = mod.dump(REPO)
     path = os.path.join(LEAN_DIR, 'BtcVerif', 'Generated', group + '.lean')
